@@ -387,7 +387,10 @@ func runC18(c *Ctx, variant int) {
 			}
 			srv.end.ActorAbort()
 			w.Advance(5_000_000)
-			_, _ = d.ws.NextFrame() // observes the reset: terminated
+			if w.Chance(1, 2) {
+				_, _ = d.ws.NextFrame() // observes the reset (and tries to flush the Pong): terminated
+			}
+			// else: the application re-handshakes at once, with the Pong still queued
 		case 1: // orderly close started by the client
 			_ = d.ws.Close(websocket.CloseNormal, "bye")
 			srv.sendFrame(wsFrame{Fin: true, Opcode: wsClose, Payload: wsClosePayload(1000, "")})
